@@ -1097,7 +1097,7 @@ def cases(tier, seed):
         for idx in range(len(shapes)):
             if (idx + seed) % 2 == 0:
                 yield {"kind": "shape", "n": 5, "idx": idx, "rooted": bool(idx % 2), "pat": PATTERNS[(idx // 5) % len(PATTERNS)], "seed": seed}
-    nrand, nnj, nup, ncsv = (2600, 2000, 1000, 500) if tier == "quick" else (16000, 16000, 7000, 4000)
+    nrand, nnj, nup, ncsv = (5000, 4000, 2000, 1000) if tier == "quick" else (16000, 16000, 7000, 4000)
     rest = []
     for kind, k in (("random", nrand), ("nj", nnj), ("upgma", nup), ("csv", ncsv)):
         rest.extend({"kind": kind, "i": i, "seed": seed} for i in range(k))
